@@ -14,10 +14,13 @@
 (*   UseCAS         TRUE: CompareAndSwap(nil,p); FALSE: Store(p)           *)
 (*   ReleaseClears  TRUE: Release forgets the scratch (second call no-op)  *)
 (*   PutOnReturn    TRUE: Garble also returns the scratch to the pool      *)
+(*   FailPuts       number of Puts on Garble's error paths (the randomness *)
+(*                  source fails after Get): 1 as coded, 2 is the deviation*)
+(*                  "deferred Put plus one leftover explicit Put"          *)
 (***************************************************************************)
 EXTENDS Integers, Sequences, FiniteSets, TLC
 
-CONSTANTS Procs, MaxOps, UseCAS, ReleaseClears, PutOnReturn
+CONSTANTS Procs, MaxOps, UseCAS, ReleaseClears, PutOnReturn, FailPuts
 
 VARIABLES poolPtr,   \* 0 = nil, else pool id
           pooled,    \* pool id -> bag of buffers: buffer -> count
@@ -76,6 +79,15 @@ Get(p) == /\ pc[p] = "get"
           /\ pc' = [pc EXCEPT ![p] = "fill"]
           /\ UNCHANGED <<poolPtr, npools, nhandles, lp, handles, live, writing, content, ops, bad>>
 
+\* Garble fails after Get (io error while drawing R or the input labels): the scratch goes back to the pool
+RECURSIVE BagAddN(_, _, _)
+BagAddN(b, x, n) == IF n = 0 THEN b ELSE BagAddN(BagAdd(b, x), x, n - 1)
+GarbleFails(p) ==
+    /\ pc[p] = "fill"
+    /\ pooled' = [pooled EXCEPT ![lp[p]] = BagAddN(@, cur[p], FailPuts)]
+    /\ pc' = [pc EXCEPT ![p] = "idle"]
+    /\ UNCHANGED <<poolPtr, npools, nbufs, nhandles, lp, cur, handles, live, writing, content, ops, bad>>
+
 WritersOf(b) == IF b \in DOMAIN writing THEN writing[b] ELSE {}
 
 FillBegin(p) ==
@@ -118,7 +130,7 @@ Drop == /\ \E q \in DOMAIN pooled : \E b \in InBag(pooled[q]) :
              pooled' = [pooled EXCEPT ![q] = BagDel(@, b)]
         /\ UNCHANGED <<poolPtr, npools, nbufs, nhandles, pc, lp, cur, handles, live, writing, content, ops, bad>>
 
-Next == Drop \/ \E p \in Procs : StartGarble(p) \/ Load(p) \/ Cas(p) \/ Get(p) \/ FillBegin(p) \/ FillEnd(p) \/ Release(p)
+Next == Drop \/ \E p \in Procs : StartGarble(p) \/ Load(p) \/ Cas(p) \/ Get(p) \/ GarbleFails(p) \/ FillBegin(p) \/ FillEnd(p) \/ Release(p)
 Spec == Init /\ [][Next]_vars
 
 (***************************************************************************)
